@@ -245,7 +245,9 @@ static void trajectories(bool thorough)
         // unit boundary vectors (one non-zero datum), scaled: isolates every numeric constant of the closed forms
         for (int slot = 0; slot < slots; ++slot)
         {
-            for (double sc : {1.0, -1.0, std::ldexp(1.0, 20), std::ldexp(1.0, -20), 3.0})
+            // the last two scales are far below the machine epsilon: "rounding error proportional to the size of the boundary data" means the
+            // data are never compared with an absolute threshold
+            for (double sc : {1.0, -1.0, std::ldexp(1.0, 20), std::ldexp(1.0, -20), 3.0, std::ldexp(1.0, sizeof(a_real) == 4 ? -30 : -60), std::ldexp(-3.0, sizeof(a_real) == 4 ? -36 : -90)})
             {
                 if (!R.shard.mine(item++)) { continue; }
                 Req q;
